@@ -3,7 +3,7 @@
 From Coq Require Import String.
 From Gemato Require Import Py.PyLit.
 From Gemato Require Import Py.PyStr Py.PyTime Gen.PyFacts Gen.Tables Gen.Util
-  Model.Entry Model.Text Model.OpenPGP Spec.Cleartext Spec.Accept Exec.Sx.
+  Model.Entry Model.Text Model.OpenPGP Model.Hash Spec.Cleartext Spec.Accept Exec.Sx Exec.Oracles.
 Open Scope N_scope.
 
 Definition is_cmd (c : ustr) (s : string) : bool := ustr_eqb c (u s).
@@ -21,6 +21,11 @@ Fixpoint encode_sweep_aux (lo : N) (n : nat) (acc : list sx) (ok : bool) : list 
 Definition encode_sweep (lo : N) (n : nat) : sx :=
   let '(l, ok) := encode_sweep_aux lo n [] true in SL [SL l; sbool ok].
 
+Definition dec_otable (x : sx) : otable :=
+  map (fun e => match x_list e with [n; c; d] => (x_str n, x_str c, x_str d) | _ => ([], [], []) end) (x_list x).
+Definition enc_hval (v : hval) : sx := match v with HStr s => SS s | HInt n => sN n end.
+Definition enc_hres (r : list (list N * hval)) : sx := SL (map (fun kv => SL [SS (fst kv); enc_hval (snd kv)]) r).
+
 Definition run_text (c : ustr) (args : list sx) : option sx :=
   match args with
   | [a] =>
@@ -29,6 +34,7 @@ Definition run_text (c : ustr) (args : list sx) : option sx :=
       else if is_cmd c "py_lines" then Some (sstrs (py_lines (x_str a)))
       else if is_cmd c "py_int" then Some (sopt SN (py_int nd_starts (x_str a)))
       else if is_cmd c "str_of_Z" then Some (SS (str_of_Z (x_Z a)))
+      else if is_cmd c "manifest_hashes_to_hashlib" then Some (enc_res sstrs (manifest_hashes_to_hashlib (x_strs a)))
       else if is_cmd c "strptime" then Some (sopt enc_dt (strptime nd_starts (x_str a)))
       else if is_cmd c "strftime" then Some (SS (strftime (dec_dt a)))
       else if is_cmd c "utc_epoch" then Some (SN (utc_epoch (dec_dt a)))
@@ -69,6 +75,11 @@ Definition run_text (c : ustr) (args : list sx) : option sx :=
       else if is_cmd c "spawn_env" then
         Some (SL (map (fun kv => SL [SS (fst kv); SS (snd kv)])
                       (spawn_env (dec_sums a) (dec_sums b))))
+      else None
+  | [a; b; d; e; f; g] =>
+      if is_cmd c "hash_file" then
+        Some (enc_res enc_hres (hash_file (table_hashlib (dec_otable g)) (x_strs f) (x_strs a)
+                                          (map x_str (x_list b)) (x_str d) (x_N e)))
       else None
   | [a; b; d] =>
       if is_cmd c "c04_b" then Some (sbool (c04_b (x_str a) (map dec_entry (x_list b)) (x_str d)))
